@@ -193,7 +193,7 @@ func firstLine(s string) string {
 
 // runPath executes one path of harness h under decision prefix.
 func (w *Worker) runPath(h *ssa.Function, prefix []int, sh *shared) {
-	mark := len(w.journal)
+	mark := w.newMark()
 	w.truncPC(0)
 	w.inputs = w.inputs[:0]
 	w.names = map[string]int{}
@@ -208,6 +208,9 @@ func (w *Worker) runPath(h *ssa.Function, prefix []int, sh *shared) {
 	w.observes = w.observes[:0]
 	w.smtReads = nil
 	w.hashApps = nil
+	// the merge blacklist is per path: re-executions of a prefix must see the
+	// same sequence of merge attempts as the original execution
+	w.mergeFails = map[ssa.Instruction]int{}
 	w.gor = nil
 	var newq [][]int
 	w.dc = &dctx{prefix: prefix, queue: &newq}
@@ -260,7 +263,7 @@ func (w *Worker) runPath(h *ssa.Function, prefix []int, sh *shared) {
 		sh.res.Reached[k] = true
 	}
 	if len(sh.res.SamplePaths) < 5 && status != "pruned" {
-		sh.res.SamplePaths = append(sh.res.SamplePaths, fmt.Sprintf("%s decisions=%v inputs=%d pc=%d steps=%d status=%s", h.Name(), w.dc.taken, len(w.inputs), len(w.pc), w.steps, status))
+		sh.res.SamplePaths = append(sh.res.SamplePaths, fmt.Sprintf("%s decisions=%v inputs=%d pc=%d steps=%d status=%s", h.Name(), decodeDecisions(w.dc.taken), len(w.inputs), len(w.pc), w.steps, status))
 	}
 	sh.queue = append(sh.queue, newq...)
 	sh.mu.Unlock()
@@ -552,12 +555,14 @@ func (w *Worker) callMerged(caller *frame, fn *ssa.Function, args []Value, env [
 	var outs []outcome
 	queue := [][]int{{}}
 	baseInputs := len(w.inputs)
+	w.mergeDepth++
+	defer func() { w.mergeDepth-- }()
 	for len(queue) > 0 {
 		pre := queue[0]
 		queue = queue[1:]
 		var newq [][]int
 		w.dc = &dctx{prefix: pre, queue: &newq}
-		mark := len(w.journal)
+		mark := w.newMark()
 		pcMark := len(w.pc)
 		w.solver.Push()
 		var o outcome
@@ -570,6 +575,11 @@ func (w *Worker) callMerged(caller *frame, fn *ssa.Function, args []Value, env [
 						o.pan = &x
 					case pathAbort:
 						if x.kind == abInfeasible {
+							aborted = true
+							return
+						}
+						if w.prog.lazyRegions && x.kind != abKilled && w.solver.Check() == Unsat {
+							// the sub-path was only explored lazily and is infeasible
 							aborted = true
 							return
 						}
